@@ -18,6 +18,8 @@ from .core import g_bool, g_list, g_nat, g_opt, g_pair, g_str
 TCODE = {"DIRECTIVE": 1, "TABLE": 2, "TEMPLATE_ROW": 3, "METADATA": 4, "BLANK": 5}
 FORM = {"pdtable": "FPd", "jsondata": "FJson", "cellgrid": "FGrid"}
 CUSTOM = {"onoff": True, "datetime": "1999-12-31T23:59:59", "float": -1.0}
+# a second custom fixer: falsy replacements, and a fresh list (not the extended input) for short rows
+CUSTOM0 = {"onoff": False, "datetime": "1970-01-01T00:00:00", "float": 0.0}
 
 logging.disable(logging.CRITICAL)
 
@@ -43,6 +45,17 @@ def make_fixer(kind):
             ParseFixer.fix_illegal_cell_value(self, vtype, value)
             return {"onoff": True, "datetime": pd.Timestamp(CUSTOM["datetime"]), "float": -1.0, "-": -1.0}[vtype]
 
+    class Custom0(Lenient):
+        def fix_illegal_cell_value(self, vtype, value):
+            ParseFixer.fix_illegal_cell_value(self, vtype, value)
+            return {"onoff": False, "datetime": pd.Timestamp(CUSTOM0["datetime"]), "float": 0.0, "-": 0.0}[vtype]
+
+        def fix_missing_rows_in_column_data(self, row, row_data, num_columns):
+            # "should return the entire row": a new list, the caller's row is left as it was
+            return ParseFixer.fix_missing_rows_in_column_data(self, row, list(row_data), num_columns)
+
+    if kind == "custom0":
+        return Custom0()
     if kind == "lenient_class":
         return Lenient
     if kind == "strict":
@@ -290,6 +303,7 @@ def tables_for(rows):
                 v = C.to_py(c)
                 dstr[C.dt_ns(v)] = str(pd.Timestamp(v)) if False else str(v)
     dstr[C.dt_ns(pd.Timestamp(CUSTOM["datetime"]))] = str(pd.Timestamp(CUSTOM["datetime"]))
+    dstr[C.dt_ns(pd.Timestamp(CUSTOM0["datetime"]))] = str(pd.Timestamp(CUSTOM0["datetime"]))
     return ftab, dtab, dstr
 
 
@@ -333,6 +347,10 @@ def case_to_coq(case, obs):
         import pandas as pd
 
         custom = f"(Some (VBool true, VDate ({C.dt_ns(pd.Timestamp(CUSTOM['datetime']))})%Z, VNum {C.canon_fbits(-1.0)}))"
+    if fx == "custom0":
+        import pandas as pd
+
+        custom = f"(Some (VBool false, VDate ({C.dt_ns(pd.Timestamp(CUSTOM0['datetime']))})%Z, VNum {C.canon_fbits(0.0)}))"
     flt = case.get("filter")
     if flt is None:
         gf = "None"
